@@ -9,7 +9,8 @@ THEOREMS = ["Momtrop.C02.sum_between_max", "Momtrop.C02.weighted_between_max", "
 RULE = ("accepted connected graphs (1..3 loops quick / 1..4 thorough, masses, several loops, unequal weights, graphs with >=3 components in "
         "subgraphs), generic dyadic kinematics; points: uniform, hypercube corners (2^-20..2^-40, 1-2^-53), every edge-choice coordinate "
         "pushed to 0 / 1-2^-53 (rare sectors); N_T, c_min, C_sum computed exactly per graph and kinematics; points whose exact kappa_V > 1e8 are "
-        "skipped as the property says. Non-trivial: >=3 edges and removal order not the identity")
+        "skipped as the property says. Non-trivial: >=3 edges and removal order not the identity"
+        " Dedicated families in every run: hexagon/box with a doubled edge (many sectors), two-point functions (externals = end points of one propagator), self-loops, soft kinematics (2^-33, 2^-40), exact integer degrees of divergence 1..8 with even D; the identity jacobian/normalisation = u^(-D/2) v^(-dod) is checked on the returned fields.")
 ASSUMPTIONS = ["bounds checked with a relative slack of 100 L^2 eps cond kappa on u, v"]
 
 
@@ -86,6 +87,8 @@ def evaluate(ctx, ss):
         if a.get("status") == "panic":
             ctx.violation("sample panicked", S.small_req(s), observed=a); continue
         if a.get("status") != "ok" or x_b is None or not SC.finite([x_b, a["u"], a["v"], a["jac"]]):
+            if a.get("status") == "ok":
+                SC.nonfinite_verdict(ctx, s)
             ctx.count("not_ok_or_nonfinite_skipped"); continue
         x = SC.fr_list(x_b)
         if any(t <= 0 for t in x):
@@ -111,6 +114,12 @@ def evaluate(ctx, ss):
         Utr = max(sy["Umon"]); Ftr = max(val for _, val in sy["Fmon"].values()); Vtr = Ftr / Utr
         slack = 1 + SC.tol_cond(nl, ex["cond"], ex["kappa"])
         u, v = Fraction(b2f(a["u"])), Fraction(b2f(a["v"]))
+        # the bounds are statements about the Symanzik polynomials AT the sampled parameters: the returned u, v are those values
+        tolx = SC.tol_cond(nl, min(ex["cond"], ex["cond_s"]), ex["kappa"]) + Fraction(1, 10 ** 12)
+        if abs(u - ex["det"]) > tolx * ex["det"] or abs(v - ex["V"]) > tolx * ex["V"]:
+            ctx.violation(f"returned (u, v) = ({float(u)!r}, {float(v)!r}) are not the Symanzik polynomials (U, F/U) = ({float(ex['det'])!r}, {float(ex['V'])!r}) "
+                          f"at the sampled Feynman parameters (tolerance {float(tolx):.1e} relative)", S.small_req(s),
+                          expected=[float(ex["det"]), float(ex["V"])], observed=[float(u), float(v)]); continue
         if not (Utr <= u * slack and u <= NT * Utr * slack):
             ctx.violation(f"U_tr <= u <= N_T U_tr violated: U_tr={float(Utr)!r}, u={float(u)!r}, N_T={NT}", S.small_req(s), observed=float(u)); continue
         if not (cmin / NT * Vtr <= v * slack and v <= Csum * Vtr * slack):
